@@ -1,6 +1,7 @@
 package checks
 
 import (
+	"encoding/json"
 	"errors"
 	"fmt"
 
@@ -26,10 +27,10 @@ type C16Case struct {
 	Probes []C16Probe  `json:"probes"`
 }
 
-var c16Ops = []string{"get", "get", "insert", "insert", "inserthigh", "insertlow", "insertlow", "update", "delete", "delete", "deletetop", "deletetop", "delabsent", "clone", "cursor", "min", "max", "ceil", "forward", "backward", "seekfirst"}
+var c16Ops = []string{"get", "get", "insert", "insert", "inserthigh", "insertlow", "insertlow", "update", "delete", "delete", "deletetop", "deletetop", "delabsent", "clone", "openbad", "cursor", "min", "max", "ceil", "forward", "backward", "seekfirst"}
 
 func genC16(t *rapid.T, tier string) C16Case {
-	c := C16Case{Cfg: core.GenConfig(t, tier, core.GenOpts{Caches: []string{"none"}, Vals: []string{core.VInt, core.VString}})}
+	c := C16Case{Cfg: core.GenConfig(t, tier, core.GenOpts{Caches: []string{"none"}, Vals: []string{core.VInt, core.VString, core.VBytes, core.VPtr, core.VStruct}})}
 	pool := len(c.Cfg.Pool())
 	c.Fill = core.GenFill(t, pool, pool)
 	c.Prog = core.GenProgram(t, pairBaseWeights, 20, 1)
@@ -240,6 +241,12 @@ func runC16(c C16Case, o *run.Obs) error {
 			err = count(fmt.Sprintf("Delete(absent %v)", w.Pool[ak]), 2*(h+1), func() error { lt.M.Delete(core.Ctx, w.Pool[ak], w.Cfg.MakeVal(0)); return nil })
 		case "clone":
 			err = count("Clone", 1, func() error { _, e := lt.M.Clone(core.Ctx); return e })
+		case "openbad":
+			// an open that is refused (reversed key order) still reads at most the top node
+			w2 := *w
+			def := mast.DefaultKeyCompare(json.Marshal)
+			w2.KeyCompare = func(a, b interface{}) (int, error) { r, e := def(a, b); return -r, e }
+			err = count("LoadMast with a reversed KeyCompare (refused or not)", 1, func() error { w2.Load(sr, nil, nil, false); return nil })
 		case "cursor":
 			err = count("Cursor", 1, func() error { _, e := lt.M.Cursor(core.Ctx); return e })
 		case "min", "max", "ceil", "forward", "backward":
